@@ -5,6 +5,7 @@ import NanoVerif.Model.Vm
 import NanoVerif.Model.Cop
 import NanoVerif.Model.CopClient
 import NanoVerif.Model.Gate
+import NanoVerif.Model.Runtime
 namespace NanoVerif.Driver
 
 def natList (ws : List String) : Option (List Nat) := ws.mapM String.toNat?
@@ -282,6 +283,38 @@ def gateCmd (ws : List String) : String :=
         ",".intercalate (g.failures.map fun (n, k) => s!"{n}:{k}")
   | _ => "bad-op"
 
+def dynCmd (ops : String) : String :=
+  let step (st : DynArr × List String) (t : String) : DynArr × List String :=
+    let (a, out) := st
+    match t.splitOn ":" with
+    | ["push", v] => (a.push (v.toInt?.getD 0), out ++ ["-"])
+    | ["pop"] => let (a', r) := a.pop; (a', out ++ [match r with | some v => toString v | none => "E"])
+    | ["get", i] => (a, out ++ [match a.get (i.toInt?.getD 0) with | some v => toString v | none => "ABORT"])
+    | ["set", i, v] => (match a.set (i.toInt?.getD 0) (v.toInt?.getD 0) with | some a' => (a', out ++ ["-"]) | none => (a, out ++ ["ABORT"]))
+    | ["rm", i] => (match a.removeAt (i.toInt?.getD 0) with | some a' => (a', out ++ ["-"]) | none => (a, out ++ ["ABORT"]))
+    | ["clear"] => (a.clear, out ++ ["-"])
+    | ["reserve", n] => (a.reserve (n.toNat?.getD 0), out ++ ["-"])
+    | ["clone"] => (a.clone, out ++ ["-"])
+    | ["len"] => (a, out ++ [toString a.len])
+    | ["cap"] => (a, out ++ [toString a.cap])
+    | _ => (a, out ++ ["?"])
+  ",".intercalate ((ops.splitOn ",").foldl step (DynArr.new, [])).2
+
+def gcCmd (ops : String) : String :=
+  let step (st : GcState × List Nat × List String) (t : String) : GcState × List Nat × List String :=
+    let (g, ids, out) := st
+    match t.splitOn ":" with
+    | ["alloc"] => let (g', id) := g.alloc; (g', ids ++ [id], out ++ ["-"])
+    | ["retain", k] => (match ids[k.toNat?.getD 0]? with
+        | some id => ((if g.hashed.contains id then g.retain id else g), ids, out ++ ["-"])
+        | none => (g, ids, out ++ ["-"]))
+    | ["release", k] => (match ids[k.toNat?.getD 0]? with
+        | some id => (g.release id, ids, out ++ ["-"])
+        | none => (g, ids, out ++ ["-"]))
+    | ["stats"] => (g, ids, out ++ [s!"n={g.numObjects}:" ++ String.join (ids.map fun id => if g.hashed.contains id then "1" else "0")])
+    | _ => (g, ids, out ++ ["?"])
+  ",".intercalate ((ops.splitOn ",").foldl step ({}, [], [])).2.2
+
 def handle (line : String) : String :=
   match line.splitOn " " with
   | "isa.dec" :: [hex] => isaDec hex
@@ -296,6 +329,8 @@ def handle (line : String) : String :=
   | "cop.de" :: [hex] => copDeCmd hex
   | "cop.run" :: ws => copRunCmd ws
   | "gate" :: ws => gateCmd ws
+  | "dyn" :: [ops] => dynCmd ops
+  | "gc" :: [ops] => gcCmd ops
   | _ => "bad-op"
 
 end NanoVerif.Driver
